@@ -119,11 +119,38 @@ func Decode(r io.Reader, binaryFrame bool) (*Packet, error) {
 	return decode(buf, binaryFrame)
 }
 
-func DecodeWithLen(r io.Reader, binaryFrame bool, len int) (*Packet, error) {
-	buf := make([]byte, len)
-	_, err := io.ReadFull(r, buf)
-	if err != nil {
-		return nil, err
+// maxPrealloc is the most that DecodeWithLen allocates before any data has arrived.
+const maxPrealloc = 64 * 1024
+
+// DecodeWithLen reads exactly `length` bytes and decodes them.
+//
+// `length` usually comes from a header written by the peer, so the buffer is grown as
+// the data arrives (and never beyond `length`) instead of being allocated up front.
+func DecodeWithLen(r io.Reader, binaryFrame bool, length int) (*Packet, error) {
+	if length < 0 {
+		return nil, errInvalidPacketSize
+	}
+	buf := make([]byte, min(length, maxPrealloc))
+	read := 0
+	for {
+		_, err := io.ReadFull(r, buf[read:])
+		if err != nil {
+			if err == io.EOF && read > 0 {
+				err = io.ErrUnexpectedEOF
+			}
+			return nil, err
+		}
+		read = len(buf)
+		if read == length {
+			break
+		}
+		next := length
+		if read < length-read {
+			next = 2 * read
+		}
+		grown := make([]byte, next)
+		copy(grown, buf)
+		buf = grown
 	}
 	return decode(buf, binaryFrame)
 }
